@@ -100,3 +100,20 @@ where B: StarkField + ExtensibleField<2> + ExtensibleField<3> + 'static, H: Elem
     let r = std::panic::catch_unwind(std::panic::AssertUnwindSafe(|| verify::<MixAir<B>, H, crate::reccoin::RecCoin<H>>(p2, pubs, &AcceptableOptions::MinConjecturedSecurity(0))));
     (match r { Ok(Ok(())) => "ACCEPT".into(), Ok(Err(e)) => format!("REJECT {e}"), Err(_) => "PANIC verify".into() }, valid)
 }
+
+pub fn build<B: StarkField>(n: usize, e: usize, seq_len: usize, first_step: usize) -> (Vec<Vec<B>>, MixPub<B>) {
+    let per = periodic::<B>(n);
+    let mut cols = vec![vec![B::ZERO; n]; 3];
+    cols[0][0] = B::from(3u32); cols[1][0] = B::from(5u32); cols[2][0] = B::from(7u32);
+    for i in 0..n - 1 {
+        if i < n - e {
+            cols[0][i + 1] = cols[0][i] * cols[0][i] + per[0][i % 4];
+            cols[1][i + 1] = cols[1][i] * per[1][i % (n / 2)] + cols[0][i];
+            cols[2][i + 1] = cols[2][i] + cols[0][i] * cols[1][i];
+        } else { for c in 0..3 { cols[c][i + 1] = B::from((1000 + 17 * i + c) as u32); } }
+    }
+    let stride = n / seq_len;
+    let seq: Vec<B> = (0..seq_len).map(|k| cols[2][first_step + k * stride]).collect();
+    let singles = vec![(0, 0, cols[0][0]), (1, 0, cols[1][0]), (0, n - 1, cols[0][n - 1]), (1, n / 2 + 1, cols[1][n / 2 + 1])];
+    (cols, MixPub { e, first_step, singles, seq })
+}
